@@ -239,6 +239,18 @@ Definition fw_guard (s : slot) : bool :=
   && (match s_st s with SInit | SInUse => true | _ => false end)
   && (s_inh s <=? s_now s).
 
+(* AllocatingRequests.Len() filters the slice IN PLACE (requests whose worker context is done leave it).  The factory
+   worker calls it at its loop head — `allocatingV4.Len() <= 0 && allocatingV6.Len() <= 0`: the IPv6 queue is only looked
+   at when the IPv4 one is empty — and again, on both queues, when it sizes a call after the sleep. *)
+Definition prune_q (s : slot) (f : fid) : slot :=
+  let x := fget s f in fset s f (with_q x (prune (s_reqs s) (f_alloc x)) (f_dang x)).
+Definition prune_both (s : slot) : slot := prune_q (prune_q s F4) F6.
+(* both are of this shape: only the two allocating lists change *)
+Definition set_allocs (s : slot) (a4 a6 : list Z) : slot :=
+  fset (fset s F4 (with_q (s_4 s) a4 (f_dang (s_4 s)))) F6 (with_q (s_6 s) a6 (f_dang (s_6 s))).
+Definition loop_head (s : slot) : slot :=
+  let s1 := prune_q s F4 in if plen s1 F4 <=? 0 then prune_q s1 F6 else s1.
+
 Fixpoint nodupz (l : list Z) : bool := match l with [] => true | x :: r => negb (memz x r) && nodupz r end.
 Definition subsetz (a b : list Z) : bool := forallb (fun x => memz x b) a.
 Definition fresh_ips (ips : list Z) (s : iset) : bool :=
@@ -275,7 +287,7 @@ Inductive label :=
 | LWorkerCancel (r : Z)
 | LNoCacheExit (r : Z)
 | LCancel (r : Z)
-| LFwArm | LFwExpire | LFwSkip
+| LFwArm | LFwExpire | LFwSkip | LFwLook
 | LCreateBegin (n4 n6 : Z)
 | LCreateEnd (ok : bool) (eni : Z) (trunk : bool) (prim : Z) (v4 v6 : list Z) (code : Z)
 | LAssignBegin (f : fid) (n : Z)
@@ -360,11 +372,15 @@ Definition step (s : slot) (l : label) : option slot :=
   | LFwArm =>
       (* factoryAllocWorker's loop head: pending work, status init/in-use, no back-off -> unlock and
          sleep 300 ms; nothing is re-checked after the sleep *)
-      match s_fw s with FwIdle => if fw_guard s then Some (with_fw s (FwArmed (s_now s + 300))) else None | _ => None end
+      match s_fw s with FwIdle => if fw_guard s then Some (with_fw (loop_head s) (FwArmed (s_now s + 300))) else None | _ => None end
+  | LFwLook =>
+      (* the loop head evaluated with nothing to do (or wrong status, or inside the back-off): the worker goes back to
+         cond.Wait(), but its Len() calls have filtered the queues *)
+      match s_fw s with FwIdle => if fw_guard s then None else Some (loop_head s) | _ => None end
   | LFwExpire =>
       (* after the sleep: an interface exists and both queues are empty -> no call, back to the loop head *)
       match s_fw s with
-      | FwArmed t => if (t <=? s_now s) && negb (s_eni s =? 0) && (plen s F4 =? 0) && (plen s F6 =? 0) then Some (with_fw s FwIdle) else None
+      | FwArmed t => if (t <=? s_now s) && negb (s_eni s =? 0) && (plen s F4 =? 0) && (plen s F6 =? 0) then Some (with_fw (prune_both s) FwIdle) else None
       | _ => None end
   | LFwSkip =>
       (* the same observable behaviour as a worker whose loop-head check came after the last waiting
@@ -375,7 +391,7 @@ Definition step (s : slot) (l : label) : option slot :=
       | FwArmed t =>
           if (t <=? s_now s) && (s_eni s =? 0)
              && (n4 =? Z.min (s_batch s) (Z.max (plen s F4) 1)) && (n6 =? Z.min (s_batch s) (plen s F6))
-          then Some (log_call (with_fw (with_st s SCreating) (FwCreate n4 n6)) (CCreate n4 n6))
+          then Some (log_call (with_fw (with_st (prune_both s) SCreating) (FwCreate n4 n6)) (CCreate n4 n6))
           else None
       | _ => None end
   | LCreateEnd ok eni trunk prim v4 v6 code =>
@@ -401,11 +417,11 @@ Definition step (s : slot) (l : label) : option slot :=
       match s_fw s, f with
       | FwArmed t, F4 =>
           if (t <=? s_now s) && negb (s_eni s =? 0) && (0 <? n4) && (n =? n4)
-          then Some (log_call (with_fw s (FwAssign4 n4 n6)) (CAssign F4 n (len (f_cl (s_4 s)))))
+          then Some (log_call (with_fw (prune_both s) (FwAssign4 n4 n6)) (CAssign F4 n (len (f_cl (s_4 s)))))
           else None
       | FwArmed t, F6 =>
           if (t <=? s_now s) && negb (s_eni s =? 0) && (n4 =? 0) && (0 <? n6) && (n =? n6)
-          then Some (log_call (with_fw s (FwAssign6 n6 true)) (CAssign F6 n (len (f_cl (s_6 s)))))
+          then Some (log_call (with_fw (prune_both s) (FwAssign6 n6 true)) (CAssign F6 n (len (f_cl (s_6 s)))))
           else None
       | FwAssign6 m false, F6 =>
           if n =? m then Some (log_call (with_fw s (FwAssign6 m true)) (CAssign F6 n (len (f_cl (s_6 s))))) else None
